@@ -382,6 +382,37 @@ def run_type(i, label, spec, tier, st):
                 if (k not in dd or k not in ds or dd[k] == ds[k]) and both[k] != one:
                     st.violation(dict(base, signature={"kind": "definitions_both_differs", "version": vname}, what=f"definition {k!r} of definitions_schema(deserialization+serialization) = {json.dumps(both[k])[:150]} differs from the one-sided definition {json.dumps(one)[:150]}"[:400]))
                     break
+                if k in dd and k in ds and dd[k] != ds[k] and isinstance(both[k].get("properties"), dict):
+                    # properties present on one side only are copied with readOnly / writeOnly, in the same dialect
+                    pd, ps = dd[k].get("properties", {}), ds[k].get("properties", {})
+                    bad = None
+
+                    def iso(x):
+                        # draft-07 / OpenAPI 3.0 ignore the siblings of $ref: once readOnly / writeOnly is added, the
+                        # conversion rightly isolates the reference in allOf
+                        if isinstance(x, dict) and "$ref" in x and len(x) > 1 and vname in ("draft-07", "oas3.0"):
+                            y = {a: b for a, b in x.items() if a != "$ref"}
+                            y["allOf"] = [{"$ref": x["$ref"]}] + list(y.get("allOf", []))
+                            return y
+                        return x
+
+                    for pn, pv in both[k]["properties"].items():
+                        if pn in pd and pn in ps:
+                            if pd[pn] == ps[pn] and pv != pd[pn]:
+                                bad = (pn, pv, pd[pn])
+                        elif pn in ps:
+                            if iso(pv) != iso(dict(ps[pn], readOnly=True)):
+                                bad = (pn, pv, dict(ps[pn], readOnly=True))
+                        elif pn in pd:
+                            if iso(pv) != iso(dict(pd[pn], writeOnly=True)):
+                                bad = (pn, pv, dict(pd[pn], writeOnly=True))
+                        else:
+                            bad = (pn, pv, None)
+                        if bad:
+                            break
+                    if bad:
+                        st.violation(dict(base, signature={"kind": "definitions_both_property", "version": vname, "one_sided": bad[0] not in pd or bad[0] not in ps}, what=f"definition {k!r} of definitions_schema(both): property {bad[0]!r} = {json.dumps(bad[1])[:150]}, expected {json.dumps(bad[2])[:150]} (the one-sided schema of {vname} plus readOnly / writeOnly)"[:400]))
+                        break
     case.drop()
     dc.periodic_reset(i)
 
